@@ -32,6 +32,7 @@ SMI_IMPORTABLE = {'Integer32', 'Unsigned32', 'Gauge32', 'Counter32', 'Counter64'
 
 class Names:
     keywords = False         # also hand out Python keywords (legal MIB identifiers)
+    digit_names = False      # also hand out value names that start with digits (3com, 802dot1x: legal for the lexer)
 
     def __init__(self, rng):
         self.rng = rng
@@ -86,6 +87,8 @@ class Names:
             s += str(next(self.n))
             if upper:
                 s = s[0].upper() + s[1:]
+            elif self.digit_names and r.random() < 0.12:
+                s = r.choice(['3', '802', '1', '00']) + s
             if s in self.used or s in RESERVED or s in PY_KEYWORDS or s in AVOID:
                 continue
             self.used.add(s)
@@ -220,10 +223,12 @@ class SetGen:
                     imp('SNMPv2-SMI', pn)
                 elif pm != mname:
                     imp(pm, pn)
-                arc = rng.choice([1, 2, 3, 4, 48, 480, 5, 10, 99, 0, 65535]) if rng.random() < 0.5 else len(nodes) + 1
+                # (sub-identifiers range over 0..4294967295: the upper half of that range included)
+                arc = rng.choice([1, 2, 3, 4, 48, 480, 5, 10, 99, 0, 65535, 2147483647, 2147483648, 3000000000, 4294967295]) \
+                    if rng.random() < 0.5 else len(nodes) + 1
                 used = {tuple(t['oid']) for t in self.truth.values() if 'oid' in t}
                 while tuple(poid + [arc]) in used:
-                    arc += 1
+                    arc = arc + 1 if arc < 4294967295 else len(nodes) + 1
                 parts = [('ref', pn)]
                 # occasionally spell intermediate arcs inline: { parent 7 3 } or { parent sub(7) 3 }
                 def label(n):
